@@ -21,7 +21,7 @@ FUNCTIONS = ["ak.mtd_sql.SqlFilterCondition.make", "ak.mtd_sql.SqlFieldValCondit
              "ak.mtd_sql.SqlMethod._init_record_type", "ak.mtd_sql.SqlMethod.list", "ak.mtd_sql.SqlMethod.all", "ak.mtd_sql.SqlMethod.one",
              "ak.mtd_sql.SqlMethod.one_or_none"]
 BOUNDS = {
-    "quick": {"shapes": "45 condition-tree shapes: 1-3 top-level filters from comparisons (6 operators), IN/NOT IN/=/!= with list, tuple, set of 0..2 values, NULL tests, '='/'!=' None, "
+    "quick": {"special": "string operands/cells also from 12 SQL look-alike strings (IS NULL, NULL, ?, %, quotes, ...)", "shapes": "45 condition-tree shapes: 1-3 top-level filters from comparisons (6 operators), IN/NOT IN/=/!= with list, tuple, set of 0..2 values, NULL tests, '='/'!=' None, "
                         "LIKE/NOT LIKE, OR-groups of 0..2 operands (incl. nested IN and kwargs form), ignored None arguments, keyword filters, 2-item tuples, static text",
               "values": "int operands and integer cells: ALL ints or NULL (symbolic); text operands/cells: NULL or ANY string of length <= 2 (symbolic characters: quotes, wildcards, anything)", "table": "2 symbolic rows (1 symbolic row for shapes that involve the text column: WHERE is a per-row predicate)"},
 }
@@ -599,6 +599,41 @@ def h_filter(i0: int, i1: int, i2: int, in0: bool, in1: bool, in2: bool, s0: str
         raise Violation("cursor-not-closed :: cursor was not closed exactly once")
 
 
+# strings that look like SQL: they must be treated as data whatever form of condition carries them
+SPECIAL = ["IS NULL", "is not null", "NULL", "?", "%", "_", "'", "a' OR '1'='1", "1", "", "a", "A"]
+
+
+def _special_args(k0: int, k1: int):
+    s0, s1 = SPECIAL[k0], SPECIAL[k1]
+    return dict(i0=1, i1=2, i2=3, in0=False, in1=False, in2=False, s0=s0, s1=s1, sn0=False, sn1=False,
+                a0=1, a1=2, a2=3, an0=False, an1=False, an2=True, b0=s0, b1=s1, b2="zz", bn0=False, bn1=False, bn2=True)
+
+
+def h_filter_special(k0: int, k1: int, shard=None) -> None:
+    """the string operands and cells are taken from SPECIAL (SQL look-alikes) instead of symbolic short strings"""
+    reject_unless(0 <= k0 < len(SPECIAL) and 0 <= k1 < len(SPECIAL))
+    k0, k1 = realize(k0), realize(k1)
+    old = MAXLEN[0]
+    MAXLEN[0] = 99
+    try:
+        h_filter(shard=shard, **_special_args(k0, k1))
+    finally:
+        MAXLEN[0] = old
+
+
+def replay_h_filter_special(record) -> Optional[str]:
+    from vf.core import decode_args
+    a = decode_args(record["args"])
+    rec = dict(record)
+    rec["args"] = _special_args(a["k0"], a["k1"])
+    old = MAXLEN[0]
+    MAXLEN[0] = 99
+    try:
+        return replay_h_filter(rec)
+    finally:
+        MAXLEN[0] = old
+
+
 def _same_val(p, w) -> bool:
     if p is None or w is None:
         return p is None and w is None
@@ -725,5 +760,8 @@ def jobs(tier: str) -> List[Job]:
     for k in range(len(SHAPES)):
         if t or k % 2 == 0:
             js.append(Job(__name__, "h_evaluator_vs_sqlite", shard={"shape": k}, budget_s=200 if t else 15, label=f"evaluator_vs_sqlite:shape{k}"))
+    for k in range(len(SHAPES)):
+        if "b" in _cols_used(SHAPES[k]):
+            js.append(Job(__name__, "h_filter_special", shard={"shape": k, "rows": 3}, budget_s=300 if t else 40, label=f"filter-special-strings:shape{k}", must_exhaust=True))
     js.append(Job(__name__, "h_one", shard={}, budget_s=120, label="one/one_or_none/all", must_exhaust=True))
     return js
